@@ -101,9 +101,22 @@ class Sink:
 _canary_cache: dict = {}
 
 
+_NCPU = os.cpu_count() or 1
+
+
+def load_factor():
+    """Budgets are wall-clock: on a machine whose run queue is longer than its core count every query gets that much
+    less CPU, so the budgets are stretched by the same factor (1 on a quiet machine, at most 6) - verdicts must not
+    flip because other jobs are running."""
+    try:
+        return max(1.0, min(6.0, os.getloadavg()[0] / _NCPU))
+    except OSError:
+        return 1.0
+
+
 def _solver(timeout_ms):
     s = z3.Solver()
-    s.set("timeout", timeout_ms)
+    s.set("timeout", int(timeout_ms * load_factor()))
     return s
 
 
@@ -337,7 +350,7 @@ def _refine(assumptions, goal, budget_s, linearise=False):
     #   very first query undecidable for the solver; a model that falsifies one brings it in)
     goal_nl = _is_nonlinear(goal)
     keep = {a.get_id() for a in relevant(prem, goal, 1) if not _has_quantifier(a) and (goal_nl or not _is_nonlinear(a))}
-    deadline = time.time() + budget_s
+    deadline = time.time() + budget_s * load_factor()
     # concrete interpretations of some library functions (sound for refutation: they only remove models)
     allsyms = set(symbols(goal))
     for a in prem:
